@@ -204,6 +204,9 @@ func runC01(k *kernel.K) {
 	}
 	n.TCPLikeConns = w.Chance(1, 2)
 	n.ResetOnCloseWithUnread = n.TCPLikeConns && w.Chance(1, 2) // close(2) with unread input resets a TCP connection
+	if n.ResetOnCloseWithUnread {
+		k.Probe("network_resets_on_close_with_unread_input")
+	}
 	proxy, l := newProxyA(k, n)
 	// Idle timeout of the proxy (default 5 minutes); idle gaps between requests stay below it.
 	timeout := 5 * time.Minute
